@@ -285,7 +285,8 @@ def run(ctx):
     def sign_guard(fn, test):
         """'neg' for all(<max_cap-derived> <= 0), 'pos' for all(<min_cap-derived> >= 0); the operand is recognised by its origin."""
         org = ctx.origins(fn, values_only=True)
-        for c in au.walk_local(test):
+        # the test itself must be the all(...) call: inside `not (... or all(cap <= 0) or ...)` it says nothing about the sign in the body
+        for c in [test]:
             if isinstance(c, ast.Call) and au.method_name(c) == "all" and c.args and isinstance(c.args[0], ast.Compare) and len(c.args[0].ops) == 1:
                 cmp_ = c.args[0]
                 attrs = {x.attr for x in org.nodes(cmp_.left, test) if isinstance(x, ast.Attribute) and au.base_name(x) == "self"}
